@@ -204,6 +204,44 @@ def check_secparams_typed(ctx: Ctx, rep: Report, rule: str = "C20-R11") -> None:
         rep.check(ok, rule, fn.site(), text, f"{kind}: {got!r}"[:200], key=f"{fn.key}|untyped-secparams|{label}")
 
 
+def check_locks_released(ctx: Ctx, rep: Report, rule: str = "C20-R12") -> None:
+    """
+    A lock taken while a datagram is processed (plug-in lookup by the version / security-model field of the datagram)
+    must be released on every path, exceptional ones included: `with lock:` or `lock.acquire()` immediately followed
+    by `try: ... finally: lock.release()`.  A bare acquire / release pair around code that can raise on datagram
+    content (an unhashable key, a failing import) leaves the lock held: every later lookup blocks for ever.
+    """
+    from ..engine.universe import parent_of
+
+    # the matcher is exercised on a built-in example on every run (the package may legitimately hold no lock at all)
+    sample = ast.parse("def f(lock, d, k):\n    lock.acquire()\n    v = d.get(k)\n    lock.release()\n    return v\n").body[0]
+    bare = [n for n in ast.walk(sample) if isinstance(n, ast.Expr) and isinstance(n.value, ast.Call) and isinstance(n.value.func, ast.Attribute) and n.value.func.attr == "acquire"]
+    rep.check(len(bare) == 1 and not isinstance(sample.body[1], ast.Try), rule, "(built-in example)", "the matcher recognises a bare acquire() / release() pair around code that can raise", key="selftest|lock-matcher")
+    for fn in ctx.u.functions.values():
+        if fn.module.external or not fn.module.name.startswith("puresnmp"):
+            continue
+        for n in own_nodes(fn.node):
+            if isinstance(n, (ast.With, ast.AsyncWith)):
+                for it in n.items:
+                    b = ctx.r.resolve_expr(fn.module, it.context_expr) if isinstance(it.context_expr, (ast.Name, ast.Attribute)) else None
+                    if b is not None and b.kind == "value" and isinstance(b.target, ast.Call) and norm(b.target.func).split(".")[-1] in ("Lock", "RLock", "Semaphore", "BoundedSemaphore"):
+                        rep.ok(rule, fn.site(n), f"{fn.qualname}: `{norm(it.context_expr)}` is held through a with statement", "released on every exit by construction")
+            if isinstance(n, ast.Expr) and isinstance(n.value, (ast.Call, ast.Await)):
+                call = n.value.value if isinstance(n.value, ast.Await) else n.value
+                if isinstance(call, ast.Call) and isinstance(call.func, ast.Attribute) and call.func.attr == "acquire":
+                    lock = norm(call.func.value)
+                    par = parent_of(n)
+                    ok = False
+                    for fld in ("body", "orelse", "finalbody"):
+                        blk = getattr(par, fld, None)
+                        if isinstance(blk, list) and n in blk:
+                            i = blk.index(n)
+                            nxt = blk[i + 1] if i + 1 < len(blk) else None
+                            if isinstance(nxt, ast.Try) and any(isinstance(x, ast.Call) and isinstance(x.func, ast.Attribute) and x.func.attr == "release" and norm(x.func.value) == lock for s_ in nxt.finalbody for x in ast.walk(s_)):
+                                ok = True
+                    rep.check(ok, rule, fn.site(n), f"{fn.qualname}: `{lock}.acquire()` is immediately followed by try / finally releasing it (an exception raised while it is held - also one caused by datagram content - must not leave it locked)", key=f"{fn.key}|lock-not-released|{lock}")
+
+
 def run(ctx: Ctx, rep: Report) -> None:
     rep.rule("C20-R1", "every while loop reachable while processing a datagram makes progress (cursor advance / strictly decreasing measure / finite iterator)", floor=7)
     rep.rule("C20-R2", "no decoded integer reaches range(), a repetition count or an allocation size unchecked", floor=1)
@@ -212,6 +250,7 @@ def run(ctx: Ctx, rep: Report) -> None:
     rep.rule("C20-R5", "a lazily decoded SEQUENCE is walked once: no indexing / len() / .value of it inside a loop (each access re-decodes the whole value: quadratic time in the datagram size)", floor=1)
     rep.rule("C20-R8", "no datagram is rendered recursively (pretty / repr of the decoded tree) unless debug logging asks for it", floor=1)
     rep.rule("C20-R11", "decoded USM security parameters are refused unless every member has its ASN.1 type (a wrongly typed engine-boots / time must not reach the discovery cache, where it would break every later request)", floor=4)
+    rep.rule("C20-R12", "no datagram can leave a lock held: locks are taken with `with` or acquire() + try / finally release()", floor=1)
     rep.rule("C20-R10", "whatever datagram arrives (also an empty one), the socket of the exchange is closed on every path (shared with C13-R1)", floor=2)
     rep.rule("C20-R9", "no response keeps a walk asking for the same OIDs for ever: every fetcher refuses a response that does not advance, the continuation list is renewed each round (shared with C03-R1/R2/R3/R5)", floor=2)
     rep.rule("C20-R7", "no reply makes the UDP sender spin: the retry loop returns at the first reply and otherwise uses up one retry per iteration (shared with C13-R2)", floor=7)
@@ -405,6 +444,7 @@ def run(ctx: Ctx, rep: Report) -> None:
     # the sender's retry loop: whatever the peer replies (an empty datagram included), every iteration either
     # returns or consumes one of the `retries`
     check_secparams_typed(ctx, rep)
+    check_locks_released(ctx, rep)
     sub = ctx.sub_run("c13", rep)
     rep.adopt_rules(sub, "C20-R7", ["C13-R2"])
     # no reply, however short or malformed, leaves a socket behind (descriptors are a bounded resource too)
